@@ -1,4 +1,6 @@
 package main
 
 // One blank import per engine package; each registers its checks in init().
-import ()
+import (
+	_ "verif/harness/smlab"
+)
